@@ -19,6 +19,7 @@ import time
 from typing import Callable
 
 WATCHDOG_S = 60.0
+SQL_YIELD = True      # False: SQL statements are not yield points (coarse, method-level scheduling)
 
 
 class HarnessStuck(Exception):
@@ -158,7 +159,10 @@ class Sched:
         a.event.set()
         if not self.main_evt.wait(WATCHDOG_S):
             self.aborting = True
-            raise HarnessStuck(f"actor {a.name} did not yield within {WATCHDOG_S}s at {a.label}")
+            import traceback
+            frame = sys._current_frames().get(a.thread.ident) if a.thread else None
+            where = "".join(traceback.format_stack(frame)[-8:]) if frame else ""
+            raise HarnessStuck(f"actor {a.name} did not yield within {WATCHDOG_S}s at {a.label}\n{where}")
 
     def run(self, chooser: Callable[[list[Actor], "Sched"], Actor | None], max_steps: int = 100000) -> str:
         """Run until every actor is done ('done'), nothing is runnable ('deadlock'), chooser returns
@@ -299,6 +303,8 @@ def instrument_sqlite() -> None:
         a = s.me() if s is not None else None
         if a is None:
             return orig_execute(self, sql, parameters)
+        if not SQL_YIELD:
+            return orig_execute(self, sql, parameters)
         db = dbkey(self)
         head = " ".join(sql.split())[:60]
         s.yield_point("sql:" + head)
@@ -320,7 +326,7 @@ def instrument_sqlite() -> None:
 
     def commit(self):
         s = Sched.current
-        if s is not None and s.me() is not None:
+        if SQL_YIELD and s is not None and s.me() is not None:
             s.yield_point("sql:COMMIT")
         try:
             return self._conn.commit()
